@@ -118,6 +118,29 @@ var hintLemmas = map[string]*hintLemma{
 		b := u.specBI(a[0], IntLit(0), a[1])
 		return Imp(Ge(a[0], IntLit(1)), And(Eq(u.specFn("fdiv", b, a[0]), a[1]), Imp(Ge(a[1], IntLit(0)), Eq(u.specFn("cdiv", b, a[0]), a[1]))))
 	}},
+	"fdiv-def": {"fdiv-def", 2, func(u *Unit, a []*Term) *Term {
+		n, ch := a[0], a[1]
+		k := u.specFn("fdiv", n, ch)
+		b := u.specBI(ch, IntLit(0), k)
+		return Imp(And(Ge(ch, IntLit(1)), Ge(n, IntLit(0))), And(Ge(k, IntLit(0)), Le(b, n), Lt(n, Add(b, ch))))
+	}},
+	"cdiv-def": {"cdiv-def", 2, func(u *Unit, a []*Term) *Term {
+		n, ch := a[0], a[1]
+		k := u.specFn("cdiv", n, ch)
+		b := u.specBI(ch, IntLit(0), k)
+		return Imp(And(Ge(ch, IntLit(1)), Ge(n, IntLit(0))), And(Ge(k, IntLit(0)), Lt(Sub(b, ch), n), Le(n, b), Imp(Eq(n, IntLit(0)), Eq(k, IntLit(0)))))
+	}},
+	"cdiv-aligned": {"cdiv-aligned", 2, func(u *Unit, a []*Term) *Term {
+		// n a whole number of frames: cdiv = fdiv
+		n, ch := a[0], a[1]
+		return Imp(And(Ge(ch, IntLit(1)), Ge(n, IntLit(0)), Eq(n, u.specBI(ch, IntLit(0), u.specFn("fdiv", n, ch)))), Eq(u.specFn("cdiv", n, ch), u.specFn("fdiv", n, ch)))
+	}},
+	"cdiv-mono": {"cdiv-mono", 3, func(u *Unit, a []*Term) *Term {
+		return Imp(And(Ge(a[2], IntLit(1)), Le(IntLit(0), a[0]), Le(a[0], a[1])), Le(u.specFn("cdiv", a[0], a[2]), u.specFn("cdiv", a[1], a[2])))
+	}},
+	"bi-zero": {"bi-zero", 1, func(u *Unit, a []*Term) *Term {
+		return Eq(u.specBI(a[0], IntLit(0), IntLit(0)), IntLit(0))
+	}},
 	"bi-nonneg": {"bi-nonneg", 2, func(u *Unit, a []*Term) *Term {
 		return Imp(And(Ge(a[0], IntLit(0)), Ge(a[1], IntLit(0))), Ge(u.specBI(a[0], IntLit(0), a[1]), IntLit(0)))
 	}},
